@@ -1,8 +1,159 @@
 //! C10 correspondence harness: SymbolFile::parse over a chunking reader with a recording
-//! callback, plus the whole-slice parse of the same bytes (see ../symcase.rs for the protocol).
+//! callback, plus the whole-slice parse of the same bytes (see ../symcase.rs for the protocol),
+//! plus SymbolFile::parse_async over a scripted HTTP body.
+//!
+//! Case line:  <segment>* | <schedule token>* [ | <stream token>* ]
+//!   stream token  <n> | <n>*<k>   the body yields a data frame of n bytes (k times); n = 0 is an EMPTY frame
+//!                 E               the body yields an error here (response.chunk() fails); nothing after it is delivered
+//!   After the script the rest of the input (if any) comes as one frame, then the body ends.  Sizes are clipped to what is left.
+//!   Without the third section the frames are the schedule's sizes (at least 1 byte each), as in rounds 1-4.
+//! Async answer (model part):  A=<OK|E<code>:<line>|E8:0 = the error of the body>;acb=<callback bytes>,<calls>;aev=<hash of callback lengths>,<n>;AT=<table>
+//! oracle part: acbok=<callback bytes are a prefix of the input>;aeq=<async table == whole-slice table of the WHOLE input, or both errors>
+//!              ;ad=<bytes the body delivered>;aerr=<1 if the body failed>;aw=<whole-slice parse of the delivered bytes>
 #[path = "../symcase.rs"]
 mod symcase;
 
+use breakpad_symbols::{SymbolError, SymbolFile};
+use std::cell::Cell;
+use std::collections::VecDeque;
+use symcase::{class, mix, render_table, Case};
+
+#[derive(Clone, Copy)]
+enum Ev {
+    Data(usize),
+    Fail,
+}
+
+struct ScriptBody {
+    frames: VecDeque<Result<bytes::Bytes, ()>>,
+}
+
+impl http_body::Body for ScriptBody {
+    type Data = bytes::Bytes;
+    type Error = std::io::Error;
+    fn poll_frame(
+        mut self: std::pin::Pin<&mut Self>,
+        _cx: &mut std::task::Context<'_>,
+    ) -> std::task::Poll<Option<Result<http_body::Frame<bytes::Bytes>, Self::Error>>> {
+        std::task::Poll::Ready(self.frames.pop_front().map(|f| match f {
+            Ok(b) => Ok(http_body::Frame::data(b)),
+            Err(()) => Err(std::io::Error::new(std::io::ErrorKind::ConnectionReset, "scripted body error")),
+        }))
+    }
+}
+
+thread_local! {
+    static RT: tokio::runtime::Runtime =
+        tokio::runtime::Builder::new_current_thread().enable_all().build().expect("runtime");
+}
+
+fn parse_script(s: &str) -> Vec<Ev> {
+    let mut out = Vec::new();
+    for t in s.split_ascii_whitespace() {
+        if t == "E" {
+            out.push(Ev::Fail);
+            continue;
+        }
+        let (n, k) = match t.split_once('*') {
+            Some((a, b)) => (a.parse::<usize>().expect("n"), b.parse::<usize>().expect("k")),
+            None => (t.parse::<usize>().expect("n"), 1),
+        };
+        for _ in 0..k {
+            out.push(Ev::Data(n));
+        }
+    }
+    out
+}
+
+fn class_async(r: &Result<SymbolFile, SymbolError>) -> String {
+    match r {
+        Err(SymbolError::LoadError(_)) => "E8:0".to_string(),
+        _ => class(r),
+    }
+}
+
+fn run_stream(c: &Case, script: &[Ev]) -> (String, String) {
+    let mut frames = VecDeque::new();
+    let mut pos = 0usize;
+    let mut failed = false;
+    for ev in script {
+        match *ev {
+            Ev::Data(n) => {
+                let n = n.min(c.data.len() - pos);
+                frames.push_back(Ok(bytes::Bytes::copy_from_slice(&c.data[pos..pos + n])));
+                pos += n;
+            }
+            Ev::Fail => {
+                frames.push_back(Err(()));
+                failed = true;
+                break;
+            }
+        }
+    }
+    if !failed && pos < c.data.len() {
+        frames.push_back(Ok(bytes::Bytes::copy_from_slice(&c.data[pos..])));
+        pos = c.data.len();
+    }
+    let delivered = pos;
+    let resp: reqwest::Response = http::Response::new(reqwest::Body::wrap(ScriptBody { frames })).into();
+    let ev = Cell::new(0xcbf29ce484222325u64);
+    let nev = Cell::new(0u64);
+    let mut cblen: usize = 0;
+    let mut cbcalls: u64 = 0;
+    let mut cbok = true;
+    let data = &c.data;
+    let res = RT.with(|rt| {
+        rt.block_on(SymbolFile::parse_async(resp, |b: &[u8]| {
+            cbcalls += 1;
+            mix(&ev, 2);
+            mix(&ev, b.len() as u64);
+            nev.set(nev.get() + 1);
+            if cblen + b.len() > data.len() || &data[cblen..cblen + b.len()] != b {
+                cbok = false;
+            }
+            cblen += b.len();
+        }))
+    });
+    let whole = SymbolFile::from_bytes(&c.data);
+    let eq = match (&res, &whole) {
+        (Ok(a), Ok(b)) => a == b,
+        (Err(_), Err(_)) => true,
+        _ => false,
+    };
+    let aw = if failed { class(&SymbolFile::from_bytes(&c.data[..delivered])) } else { class(&whole) };
+    let t = match &res {
+        Ok(s) => render_table(s),
+        Err(_) => "-".to_string(),
+    };
+    (
+        format!("A={};acb={},{};aev={},{};AT={}", class_async(&res), cblen, cbcalls, ev.get(), nev.get(), t),
+        format!(
+            "acbok={};aeq={};ad={};aerr={};aw={}",
+            if cbok { 1 } else { 0 },
+            if eq { 1 } else { 0 },
+            delivered,
+            if failed { 1 } else { 0 },
+            aw
+        ),
+    )
+}
+
+fn run(line: &str) -> String {
+    // the first two sections are symcase's; the optional third one is the stream script
+    let mut parts = line.splitn(3, '|');
+    let a = parts.next().unwrap_or("");
+    let b = parts.next().unwrap_or("");
+    let script = parts.next();
+    let c = symcase::parse_case(&format!("{}|{}", a, b));
+    let (m, o) = symcase::run_parts(&c);
+    let evs: Vec<Ev> = match script {
+        Some(s) => parse_script(s),
+        None => symcase::async_chunks(c.data.len(), &c.sched).into_iter().map(Ev::Data).collect(),
+    };
+    let (am, ao) = run_stream(&c, &evs);
+    format!("{};{};;{};{}", m, am, o, ao)
+}
+
 fn main() {
-    vharness::for_each_case(symcase::run_with_async);
+    vharness::for_each_case(run);
 }
